@@ -589,6 +589,7 @@ fn gen_listener(rng: &mut Rng) -> crate::net::NetScenario {
         stop_at_ns: None,
         stop_before: false,
         yields_before_stop: 0,
+        relisten: false,
         cap_ns: (2 * timeout_s + 30) * 1_000_000_000,
     }
 }
